@@ -1398,12 +1398,20 @@ class EBPF(EBPFBase):
 
         super().__init__(**kwargs)
 
-        for k, v in self.__class__.__dict__.items():
-            if isinstance(v, Map):
-                if load_maps is None:
-                    v.init(self, None)
-                else:
-                    v.init(self, bpf.obj_get(load_maps + k))
+        for k, v in self.all_maps():
+            if load_maps is None:
+                v.init(self, None)
+            else:
+                v.init(self, bpf.obj_get(load_maps + k))
+
+    def all_maps(self):
+        """the maps of this program, including those of its base classes"""
+        unique = set()
+        for cls in self.__class__.__mro__:
+            for k, v in cls.__dict__.items():
+                if k not in unique and isinstance(v, Map):
+                    unique.add(k)
+                    yield k, v
 
     def pin_maps(self, path):
         """pin the maps of this program to files with prefix `path`
@@ -1412,9 +1420,8 @@ class EBPF(EBPFBase):
         directories must already exist, while the individual files
         must not exist.
         """
-        for k, v in self.__class__.__dict__.items():
-            if isinstance(v, Map):
-                bpf.obj_pin(path + k, getattr(self, v.name).fd)
+        for k, v in self.all_maps():
+            bpf.obj_pin(path + k, getattr(self, v.name).fd)
 
     def program(self):
         """overwrite this method with your program while subclassing"""
@@ -1450,9 +1457,8 @@ class EBPF(EBPFBase):
         self.loaded = True
         self.file_descriptor = fd
 
-        for v in self.__class__.__dict__.values():
-            if isinstance(v, Map):
-                v.load(self)
+        for _, v in self.all_maps():
+            v.load(self)
 
         return log
 
